@@ -270,5 +270,5 @@ def check(ctx, world):
     from .common import include
     # the peer's honest message must be accepted: element/scalar codecs are total on valid values
     include(ctx, world, "c15", "E-codec", keep=lambda o: o.rule.endswith("-total") or o.rule.startswith("K2") or o.rule.startswith("K4"))
-    include(ctx, world, "c13", "E-ops", keep=lambda o: o.rule in ("G1-add", "G1-scalarmult", "G1-zero", "G3-sum", "G3-modL", "G3-identity", "G6", "G7")
+    include(ctx, world, "c13", "E-ops", keep=lambda o: o.rule in ("G1-add", "G1-scalarmult", "G1-zero", "G3-sum", "G3-modL", "G3-identity", "G6", "G7", "G7-repr")
             or o.rule.startswith("G5/") or (o.rule == "G3-closure" and (o.instance.startswith("add(") or o.instance.startswith("scalarmult("))))
